@@ -507,7 +507,9 @@ func (s *InMemoryStore) DeleteTopic(ctx context.Context, name string) error {
 	}
 	s.state.Topics = append(s.state.Topics[:index], s.state.Topics[index+1:]...)
 	for key := range s.offsets {
-		if strings.HasPrefix(key, name+":") {
+		// keys are "<topic>:<partition>": compare the whole topic part, a prefix
+		// match would also hit a topic named "<name>:..."
+		if i := strings.LastIndex(key, ":"); i >= 0 && key[:i] == name {
 			delete(s.offsets, key)
 		}
 	}
